@@ -649,6 +649,9 @@ def inline_helpers(project, func, resolve, depth=2):
 # ---------------------------------------------------------------------------
 # generator helpers: `for X in helper(args): BODY` with the helper's loop spliced in
 
+NEUTRAL_CONTEXTS = ("warnings.catch_warnings", "np.errstate", "numpy.errstate")
+
+
 def _generator_plan(g):
     """(prelude statements, the loop) of a generator helper that can be spliced into a `for` over it: a function whose body
     is some straight-line statements followed by exactly one loop, with every `yield` (statement form, with a value) and every
@@ -660,6 +663,11 @@ def _generator_plan(g):
     body = list(fn.body)
     if body and isinstance(body[0], ast.Expr) and isinstance(body[0].value, ast.Constant) and isinstance(body[0].value.value, str):
         body = body[1:]
+    # a trailing `with warnings.catch_warnings():` / `with np.errstate(..):` only changes how warnings are reported: its body is
+    # the rest of the function
+    while body and isinstance(body[-1], ast.With) and all(
+            isinstance(it.context_expr, ast.Call) and (dotted(it.context_expr.func) or "") in NEUTRAL_CONTEXTS and it.optional_vars is None for it in body[-1].items):
+        body = body[:-1] + list(body[-1].body)
     if not body or not isinstance(body[-1], (ast.For, ast.While)) or body[-1].orelse:
         return None
     loop = body[-1]
